@@ -38,6 +38,10 @@ CLAIMED = {
          "Exploration: RcParams2/RcParams3 from_initial/set over the full Euler range incl. pitch +-pi/2 +- {0,1e-12..1e-2}, rotation centres to 1e3, pure-translation / pure-rotation / mixed updates; iso2/iso3 parameter round trips; RotationMatrices from_euler / from_rotation against explicit matrices and finite differences; every entry of the 2D point-surface and 3D point-plane / reference-side / point-point Jacobians against finite differences of the residual they differentiate; ParamHandler with 2-5 bodies, any static index, with and without initial isometries.",
          "Inside the library's own gimbal band (|sin pitch| > 1-1e-8) extraction snaps pitch by design: tolerance 3e-4 there; nalgebra Euler extraction conditioning 1/sqrt(1-s^2) is allowed for. Point-plane cases on the kink of |.| are not judged. Uses hook H2 (re-export of the private 2D Jacobian).",
          "3 / C08"),
+ "C09": ("runtime monitor: normal-equation orthogonality with oracle-computed condition number; stationarity of the circle fit; defining constraints of the three-point circle; inlier count for RANSAC",
+         "Exploration: Polynomial<K>::least_squares for K = 2..6 on asymmetric, offset, clustered and repeated abscissae with and without weights (exact data must be recovered; for arbitrary data the weighted residual must be orthogonal to every monomial column, hence optimal); Series1::best_fit_line against the degree-1 fit; Circle2::fitting_circle from nearby guesses on arcs of 60..360 degrees (exact recovery, stationarity for noisy data); Circle2::from_3_points on triangles with min angle >= 5 degrees and exactly collinear triples; seeded Circle2::ransac on contaminated data.",
+         "Bounds scale with the condition number of the weighted Gram matrix computed by the oracle's SVD (cond > 1e7 skipped and counted); circle-fit gradient bound 1e-4|J||r| plus the rounding floor; Gaussian weighting judged on exact samples only.",
+         "3 / C09"),
 }
 
 def main():
